@@ -229,14 +229,17 @@ def check_dump(ctx, kind, c, pdesc, p, p_inst, dform_name, zl):
     for tname, (ttoks, tkind, _) in _dump_time_forms(pdesc["t"], ltod):
         if not mtext.compatible(dkind, tkind, zkind):
             continue
-        if not exact and "f" + pdesc["t"][0][1:2] != _frac_token(ttoks):
-            # outside the exact float domain only the decimal form of the point's own precision is judged,
-            # and then to the six printed digits
+        own_form = "f" + pdesc["t"][0][1:2] == _frac_token(ttoks)
+        if not exact and not own_form and pdesc["t"][0] not in ("hf", "hmf"):
             continue
+        # (outside the exact float domain the decimal form of the point's own precision is judged to the six printed
+        # digits; a form finer than a decimal-hour/minute point's own - whole seconds, say - to one microsecond)
         toks = dtoks + [mtext.lit("T")] + ttoks + [mtext.lit(zl)]
         fmt = mtext.notation(toks)
         case = lambda: {"kind": "dump", "mode": kind, "p": pdesc, "dform": dform_name, "zl": zl, "fmt": fmt}  # noqa
         sig = {"h24": pdesc["t"][1] == 24, "zstyle": "Z" if zl == "Z" else ("hh" if len(zl) == 3 else zkind)}
+        if not exact and not own_form:
+            sig["finer_than_point_after_inexact_rezone"] = True
         impl._H.ticks = 0
         ctx.transitions += 1
         try:
@@ -275,7 +278,7 @@ def check_dump(ctx, kind, c, pdesc, p, p_inst, dform_name, zl):
             ctx.violation("dump_fields_valid", sig, case, "valid local fields", text)
             continue
         got = dn * 86400 + tod - zoff * 60
-        tol = 0 if exact else Fraction({"fh": 3600, "fm": 60, "fs": 1}[f["frac_of"]], 1000000)
+        tol = 0 if exact else Fraction({"fh": 3600, "fm": 60, "fs": 1}[f["frac_of"]], 1000000) if "frac_of" in f else TOL
         if abs(got - p_inst) > tol:
             ctx.violation("dump_instant", sig, case, {"instant": str(p_inst)}, {"text": text, "instant": impl.sstr(got)})
         ctx.outcome("dump_day_shift", dn - c.dn_from(pdesc["rep"], pdesc["f"]))
